@@ -294,6 +294,53 @@ def user_blocks(hblocks, has_vars):
     return hblocks
 
 
+_FBLOCK = re.compile(r"^(?:namespace\.(?P<scope>[^.]+)\.)?(?:class\.(?P<cls>\w+)\.)?(?P<kind>function|method)\.(?P<fn>\w+)$")
+
+
+def scope_problems(doc, hblocks):
+    """(5) the scope part of a block name says where the declaration is: a block of a function or method
+    declared in namespaces a { b { ... } } is named namespace.a::b.[class.C.]function|method.<name> in every
+    output language (that is how a user addresses it in a splicer file or in splicer_code)."""
+    where = {}      # lower-case underscore name -> set of (scope, class)
+    for path, node, _l in meta.walk_decls(doc):
+        if meta.decl_kind(node) != "function":
+            continue
+        nm = _decl_name(node["decl"])
+        scope, cls = [], None
+        flat = False
+        for k in range(1, len(path)):
+            anc = meta.get_node(doc, tuple(path[:k]))
+            d = anc.get("decl", "")
+            if any(kk.endswith("flatten_namespace") and vv for kk, vv in (anc.get("options") or {}).items()):
+                flat = True         # documented option: the namespace does not contribute a scope
+            if d.startswith("namespace "):
+                scope.append(d.split()[1])
+            else:
+                mm = re.search(r"\b(class|struct)\s+(\w+)", d)
+                if mm:
+                    cls = mm.group(2)
+        for key in (nm.lower(), _un_camel(nm).lower()):
+            where.setdefault(key, set()).add(("::".join(scope) or None, cls) if not flat else ("?", "?"))
+    problems = []
+    for (lang, name), (fn, _lines) in sorted(hblocks.items()):
+        m = _FBLOCK.match(name)
+        if not m or lang == "lua":
+            continue            # (the Lua module is flat: recorded finding of C08/C18)
+        f = m.group("fn").lower()
+        cands = [w for k, w in where.items() if f == k or f.startswith(k + "_")]
+        if len(cands) != 1 or len(cands[0]) != 1:
+            continue                    # overloaded / ambiguous names: not judged
+        scope, cls = next(iter(cands[0]))
+        if scope == "?":
+            continue
+        # (class names of template instantiations differ from the declared name: only in-class or not is compared)
+        if m.group("scope") != scope or bool(m.group("cls")) != bool(cls):
+            problems.append(("block-scope-wrong:" + lang,
+                             "block %s in %s: the function is declared in namespace %s%s" % (
+                                 name, fn, scope or "(library level)", (", class " + cls) if cls else "")))
+    return problems
+
+
 def _job(job):
     name, text, argv, ncases, seed_value, feedback = job
     out = dict(name=name, runs=0, fails=[], nontrivial=[], samples=[], blocks=0)
@@ -311,7 +358,26 @@ def _job(job):
     for (lang, nm) in sorted(hblocks):
         names_by_lang.setdefault(lang, []).append(nm)
     decl_blocks = function_decl_blocks(doc, hblocks)
+    for key, note in scope_problems(doc, hblocks):
+        out["fails"].append((key, dict(base_case, case="scope"), note))
     cases = smallgen.sample(case_strategy(names_by_lang, decl_blocks), seed_value, ncases) if hblocks else []
+    # a declaration-level Fortran splicer on a function that needs no Fortran wrapper otherwise: the code must
+    # still appear (input.rst: "A splicer can be added after the decl line. This splicer takes priority")
+    forced = forced_f_cases(doc, hblocks, seed_value)
+    for case in forced[:2]:
+        d2 = copy.deepcopy(doc)
+        meta.get_node(d2, tuple(case["path"])).setdefault("splicer", {})["f"] = list(case["body"])
+        r = run_with(d2, {}, argv, [], name)
+        out["runs"] += 1
+        cdesc = dict(base_case, case=dict(forced_f=case))
+        if r.status != "ok":
+            out["fails"].append(("case-fails:" + (r.exc_type or ""), cdesc, "Shroud stops with a declaration-level f splicer: " + r.describe()))
+            continue
+        blocks, _d = blocks_of(r.files)
+        got = [v[1] for k, v in blocks.items() if k[0] == "f" and k[1].split(".")[-2:] in (["function", c] for c in case["names"])]
+        if not any(norm(g) == norm(case["body"]) for g in got):
+            out["fails"].append(("decl-f-splicer-dropped", cdesc,
+                                 "declaration-level f splicer of %s appears in no Fortran block (blocks found: %d)" % (case["fname"], len(got))))
     for case in cases:
         d2, files, av_files = build_inputs(doc, case, decl_blocks)
         r = run_with(d2, files, argv, av_files, name)
@@ -335,6 +401,30 @@ def _job(job):
         for key, note in problems:
             out["fails"].append((key, dict(base_case, case="feedback"), note))
     return out
+
+
+def forced_f_cases(doc, hblocks, seed_value):
+    """Unique plain library-level functions without a Fortran function block in the harvest."""
+    res = []
+    if not any(k[0] == "f" for k in hblocks):
+        return res          # the Fortran wrapper is off for this run
+    have = set(k[1].split(".")[-1].lower() for k in hblocks if k[0] == "f")
+    counts = {}
+    for path, node, _l in meta.walk_decls(doc):
+        if meta.decl_kind(node) == "function":
+            counts[_decl_name(node["decl"])] = counts.get(_decl_name(node["decl"]), 0) + 1
+    for path, node, _l in meta.walk_decls(doc):
+        if meta.decl_kind(node) != "function" or len(path) != 1:
+            continue
+        nm = _decl_name(node["decl"])
+        if counts.get(nm) != 1 or not re.match(r"^[A-Za-z_]\w*$", nm) or "splicer" in node or "cxx_template" in node or \
+                "fortran_generic" in node or "=" in node["decl"] or (node.get("options") or {}).get("wrap_fortran") is False:
+            continue
+        names = [nm, _un_camel(nm), nm.lower(), _un_camel(nm).lower()]
+        if any(h == n.lower() or h.startswith(n.lower() + "_") for n in names for h in have) or ".." in node["decl"]:
+            continue            # has Fortran blocks already (possibly one per assumed-rank / generic variant)
+        res.append(dict(path=list(path), fname=nm, names=names, body=["! user code %d" % seed_value, "call user_%s()" % nm.lower()]))
+    return res
 
 
 def judge(case, hblocks, files):
@@ -479,6 +569,21 @@ def replay(ctx, rec):
             ctx.failure(key, c, observed=note, note=note)
         return
     if c["case"] is None:
+        return
+    if c["case"] == "scope":
+        for key, note in scope_problems(doc, hblocks):
+            ctx.failure(key, c, observed=note, note=note)
+        return
+    if isinstance(c["case"], dict) and "forced_f" in c["case"]:
+        case = c["case"]["forced_f"]
+        d2 = copy.deepcopy(doc)
+        meta.get_node(d2, tuple(case["path"])).setdefault("splicer", {})["f"] = list(case["body"])
+        r = run_with(d2, {}, c["argv"], [], c["lib"])
+        blocks, _d = blocks_of(r.files) if r.status == "ok" else ({}, None)
+        got = [v[1] for k, v in blocks.items() if k[0] == "f" and k[1].split(".")[-2:] in (["function", x] for x in case["names"])]
+        if not any(norm(g) == norm(case["body"]) for g in got):
+            note = "declaration-level f splicer of %s appears in no Fortran block" % case["fname"]
+            ctx.failure("decl-f-splicer-dropped", c, observed=note, note=note)
         return
     decl_blocks = function_decl_blocks(doc, hblocks)
     d2, files, av_files = build_inputs(doc, c["case"], decl_blocks)
